@@ -68,6 +68,7 @@ var fnTargetsSKeep = []string{
 	"calendar.Lunar.GetFestivals", "calendar.Solar.GetFestivals",
 	"calendar.Lunar.GetHou", "calendar.Lunar.GetWuHou", "calendar.Lunar.GetJie", "calendar.Lunar.GetQi",
 	"calendar.Tao.IsDaySanHui", "calendar.Tao.IsDaySanYuan", "calendar.Tao.IsDayWuLa", "calendar.Tao.IsDayBaJie",
+	"calendar.LiuNian.GetGanZhi", "calendar.LiuYue.GetGanZhi",
 }
 
 // the Go string / fmt semantics used by string mode (part of the translator's trusted base)
